@@ -1,10 +1,10 @@
 (* C08 — coordinates are stored in canonical form denoting the same point.
    Only statements closed by [exact] and their Print Assumptions.
    Part 1: exact rational model of Coordinate.__init__/__eq__/__hash__ (no axioms).
-   Part 2 (C08R.v would be the natural place, kept here so the property has one file):
-   the unit vector over the reals — see the second half. *)
-From Coq Require Import QArith.
-From GV Require Import Prelude CoordM CoordP.
+   Part 2: the unit vector over the reals (Coq's sin/cos/asin/atan; the standard library's
+   axioms of the reals appear in Print Assumptions). *)
+From Coq Require Import QArith Qreals Reals.
+From GV Require Import Prelude CoordM CoordP CoordP2 CoordPR.
 Open Scope Q_scope.
 
 (* the loops terminate within the budget for every rational input: the constructor never fails *)
@@ -27,6 +27,24 @@ Print Assumptions C08_norm_range.
 Theorem C08_norm_same_pt : forall lon lat p, norm lon lat = Ok p -> same_pt (lon, lat) p.
 Proof. exact norm_same_pt. Qed.
 Print Assumptions C08_norm_same_pt.
+
+(* what same_pt relates, concretely: (l', f') is (l + 360 j, f + 360 m) or
+   (l + 180 + 360 j, 180 (2m+1) - f) for integers m, j *)
+Theorem C08_same_pt_iff_orbit : forall p q, same_pt p q <-> orbit p q.
+Proof. exact same_pt_iff_orbit. Qed.
+Print Assumptions C08_same_pt_iff_orbit.
+
+(* the canonical form is unique away from the poles: any raw pair denoting the same point as a
+   canonical pair (a, b), |b| < 90, is stored as exactly (a, b) *)
+Theorem C08_norm_unique : forall lon lat a b,
+  -180 <= a -> a < 180 -> -90 < b -> b < 90 -> same_pt (lon, lat) (a, b) ->
+  exists a' b', norm lon lat = Ok (a', b') /\ a' == a /\ b' == b.
+Proof. exact norm_unique. Qed.
+Print Assumptions C08_norm_unique.
+
+Theorem C08_same_pt_nontrivial : ~ same_pt (0, 0) (1, 0).
+Proof. exact same_pt_nontrivial. Qed.
+Print Assumptions C08_same_pt_nontrivial.
 
 (* normalising again changes nothing; canonical input is stored as given *)
 Theorem C08_norm_idem : forall lon lat a b, norm lon lat = Ok (a, b) -> norm a b = Ok (a, b).
@@ -69,6 +87,39 @@ Theorem C08_mk_bounded_spec : forall lon lat z m c, mk lon lat z m true = Ok c -
 Proof. exact mk_bounded_spec. Qed.
 Print Assumptions C08_mk_bounded_spec.
 
+(* ---------------------------------------------------------------- part 2: over the reals *)
+(* pairs related by full turns / pole reflections have the same unit vector (Coordinate.xyz) *)
+Theorem C08_same_pt_xyz : forall p q, same_pt p q -> xyz p = xyz q.
+Proof. exact same_pt_xyz. Qed.
+Print Assumptions C08_same_pt_xyz.
+
+(* hence the stored pair denotes the same point of the sphere as the raw input *)
+Theorem C08_norm_same_xyz : forall lon lat p, norm lon lat = Ok p -> xyz p = xyz (lon, lat).
+Proof. exact norm_same_xyz. Qed.
+Print Assumptions C08_norm_same_xyz.
+
+(* _from_xyz inverts xyz for every stored pair away from the poles: the values handed to the
+   constructor are inside the closed ranges (neither loop runs) and its 180 -> -180 step gives
+   back the stored pair *)
+Theorem C08_from_xyz_xyz : forall lon lat : R,
+  (-180 <= lon -> lon < 180 -> -90 < lat -> lat < 90 ->
+   let r := from_xyz_raw (xyzR lon lat) in
+   (-180 <= fst r <= 180 /\ -90 <= snd r <= 90) /\ (canon180R (fst r), snd r) = (lon, lat))%R.
+Proof. exact from_xyz_xyz. Qed.
+Print Assumptions C08_from_xyz_xyz.
+
+(* at the poles the longitude is not recoverable, but the point does not depend on it *)
+Theorem C08_xyz_pole : forall lon lon' : R,
+  xyzR lon 90 = xyzR lon' 90 /\ xyzR lon (-90) = xyzR lon' (-90).
+Proof. exact xyz_pole. Qed.
+Print Assumptions C08_xyz_pole.
+
+(* atan2 of a positive multiple of (sin t, cos t) is t on (-PI, PI] *)
+Theorem C08_atan2_polar : forall r t : R,
+  (0 < r -> - PI < t -> t <= PI -> atan2 (r * sin t) (r * cos t) = t)%R.
+Proof. exact atan2_polar. Qed.
+Print Assumptions C08_atan2_polar.
+
 (* non-vacuity: a raw input over the north pole and past the antimeridian, the 180 -> -180
    step, and two coordinates differing only in M *)
 Example C08_nonvacuous :
@@ -77,3 +128,13 @@ Example C08_nonvacuous :
   ceqb (mkc 1 2 (Some 3) (Some 5)) (mkc 1 2 (Some 3) None) = true /\
   ceqb (mkc 1 2 (Some 3) None) (mkc 1 2 None None) = false.
 Proof. vm_compute. repeat split. Qed.
+
+(* the hypotheses of the real-number theorems are met: a stored pair away from the poles, and a
+   raw pair related to it by a reflection over the north pole *)
+Example C08_nonvacuous_R :
+  (-180 <= 10 /\ 10 < 180 /\ -90 < 20 /\ 20 < 90)%R /\
+  same_pt (190, 160) (10, 20).
+Proof.
+  split; [repeat split; Lra.lra|].
+  eapply sp_trans; [|apply sp_sym, (sp_north 10 20)]. apply sp_eq; cbn; ring.
+Qed.
